@@ -52,6 +52,22 @@ RelWindowComplete(e) ==
     /\ \A i \in 1..(Len(e.cs) - 1) : e.cs[i] < e.cs[i + 1]
     /\ ~e.lend => /\ Len(e.cs) >= 3 /\ 2 \notin HullIdx(e)
     /\ ~e.rend => /\ Len(e.cs) >= 3 /\ (Len(e.cs) - 1) \notin HullIdx(e)
+\* The ROUTES that derive the native bins (BinRoutes.tla): e.mf bin_model, e.mp bindown with the points shuffled, e.mo the output
+\* writer's binned_spectrum, e.mt the row of its binned_tau (or of a 2-D bindown) that holds the same values.  Where the harness
+\* says the 32-bit budget suffices (e.chkx) TLC re-derives the bins of the window under both readings from the logged centres and
+\* requires the EXACT overlap-weighted mean of one reading on every route (the statement admits either reading, not a third).
+KnownSeq(e) == SetToSeqI(Known(e))
+HalfBin4(cs, i, lend, rend) == LET nl == NbL(cs, i, lend)  nr == NbR(cs, i, rend) IN <<4 * cs[i] - (nr - nl), 4 * cs[i] + (nr - nl)>>
+EdgeBin4(cs, i, lend, rend) == LET nl == NbL(cs, i, lend)  nr == NbR(cs, i, rend) IN <<2 * (nl + cs[i]), 2 * (cs[i] + nr)>>
+DerivedN(e, rd) == LET ks == KnownSeq(e) IN
+    [j \in 1..Len(ks) |-> IF rd = "half" THEN HalfBin4(e.cs, ks[j], e.lend, e.rend) ELSE EdgeBin4(e.cs, ks[j], e.lend, e.rend)]
+DerivedF(e) == LET ks == KnownSeq(e) IN [j \in 1..Len(ks) |-> e.f[ks[j]]]
+RouteVals(e) == {e.mf, e.mp, e.mo, e.mt}
+OrderedW(N) == \A i \in 1..(Len(N) - 1) : N[i][1] < N[i + 1][1] /\ N[i][2] < N[i + 1][2]
+ExactUnder(e, rd) == LET N == DerivedN(e, rd) IN
+    /\ OrderedW(N)              \* the quantifier's ordered bins (the harness says so for the whole grid; re-checked on the window)
+    /\ Overlaps(N, Tgt4(e))
+    /\ \A m \in RouteVals(e) : SafeClose(m, e.S, Binned(N, Tgt4(e), DerivedF(e)), e.tol)
 OkRel(e) ==
     /\ RelWindowComplete(e)
     /\ (CoreIdx(e) # {}) =>                 \* overlaps under either reading: all clauses apply
@@ -61,6 +77,8 @@ OkRel(e) ==
          /\ e.mf >= SetMinI(V) * e.S - e.tol /\ e.mf <= SetMaxI(V) * e.S + e.tol   \* bounds
          /\ Abs(e.mh - e.a * e.mf - e.b * e.mg) <= e.tol * (e.a + e.b + 1)  \* linear
          /\ Abs(e.mp - e.mf) <= e.tol                                       \* order of native points
+         /\ \A m \in RouteVals(e) : m >= SetMinI(V) * e.S - e.tol /\ m <= SetMaxI(V) * e.S + e.tol   \* bounds on every route
+         /\ e.chkx => \E rd \in {"half", "edges"} : ExactUnder(e, rd)      \* the value itself on every route
 
 \* ------------------------------------------------------------------ "hist"
 \* e.tc target centres (ascending), e.xs native points (any order), e.f values, e.k bin, e.m scaled mean
